@@ -266,6 +266,10 @@ class Ctx:
                 self.cross[v["prop"] + ":" + v["key"]] = self.cross.get(v["prop"] + ":" + v["key"], 0) + 1
 
     def _crash(self, c, flavour, driver, mode, extra, env_extra):
+        if c["kind"].startswith("tsan:") and not c["func"]:
+            # a ThreadSanitizer report with no library frame in it is about the harness's own state
+            self.harness_errors.append("%s case=%s (no /repo/lib frame) %s" % (c["kind"], c["case"], c["summary"]))
+            return
         if c["kind"].startswith("harness:") or (c["func"] or "").endswith("@harness"):
             self.harness_errors.append("%s case=%s %s" % (c["kind"], c["case"], c["summary"]))
             return
